@@ -768,7 +768,10 @@ def run_C18(ctx):
     pkw = dict(invariants=["LocateInRange", "Tiling"], init="PInit", next_="PNext",
                view="PView", action_constraints=["PEmit"], translate=("virtual", "steps_partition"),
                judge_fn=("virtual", "judge_partition"), require_actions=["ChooseSplit", "At", "Range", "Repartition"])
-    ctx.tlc_phase("partitions-all-splittings", "Partition", pc, sample_cases=(150000 if q else None), **pkw)
+    rp = ctx.tlc_phase("partitions-all-splittings", "Partition", pc, sample_cases=(150000 if q else None), **pkw)
+    # the same behaviours through ak.partitioned / ak.repartition of the repository's Python layer (src/awkward/partition.py)
+    ctx.l2_phase("partitions-python-layer", "Partition", pc, ("l2replay", "h_c18_partition"), reuse=rp,
+                 sample_cases=(20000 if q else 300000), **{k: v for k, v in pkw.items() if k not in ("translate", "judge_fn")})
     if not q:
         # longer arrays and larger strides: the phase (offset) a strided range carries from one partition into the next
         pc = dict(PartN="6", PartMax="3", MaxSteps="2", EmitOn="TRUE", RangeSteps="{1, 3, 4, 5, -2, -3}")
@@ -778,7 +781,9 @@ def run_C18(ctx):
                            "IrregularlyPartitionedArray; every observation is compared with the eager / whole array and generator calls with the spec",
                       assumptions=["the Python bindings of the cache and generator (src/python/virtual.cpp) cannot be compiled; the C++ classes are "
                                    "driven with harness-owned ArrayGenerator / ArrayCache subclasses",
-                                   "a generator returning MORE than the declared length is not modelled (accepted by design: contents may be longer)"])
+                                   "a generator returning MORE than the declared length is not modelled (accepted by design: contents may be longer)",
+                                   "phase partitions-python-layer runs src/awkward/partition.py, ak.partitioned and ak.repartition over the stand-in's "
+                                   "own partition container (the C++ PartitionedArray is the one driven in partitions-all-splittings)"])
 
 
 RUNNERS["C18"] = run_C18
